@@ -838,7 +838,7 @@ def run(ctx):
             c = json.load(open(f))
             c['_corpus'] = os.path.basename(f)
             cases.append(c)
-        na, nl, nbig = ctx.scale(600, 8000), ctx.scale(500, 6000), ctx.scale(8, 100)
+        na, nl, nbig = ctx.scale(500, 8000), ctx.scale(400, 6000), ctx.scale(6, 100)
         cases += [gen_case_A(rng) for _ in range(na)] + [gen_case_L(rng) for _ in range(nl)]
         cases += [gen_case_A(rng, big=True) for _ in range(nbig)] + [gen_case_L(rng, big=True) for _ in range(nbig)]
     terms, meta = [], []
@@ -886,8 +886,13 @@ def run(ctx):
                 mixed = mixed or 0 < above < len(rec['pin'])
             pol = policy_in_force(view or c, x['deg'])
             if pol:
-                ctx.count('policy_' + ['power', 'psd', 'psw'][pol[0]] +
-                          ('_per_degree' if any(x['deg'] in (view or c)['per_degree'].get(PDEG[k], {}) for k in range(3)) else '_node'))
+                kinds = ['power', 'psd', 'psw']
+                v = view or c
+                perdeg = any(x['deg'] in v['per_degree'].get(PDEG[k], {}) for k in range(3))
+                ctx.count('policy_' + kinds[pol[0]] + ('_per_degree' if perdeg else '_node'))
+                node = next((kinds[k] for k in range(3) if v['policy'].get(POL[k]) is not None), 'none')
+                if perdeg and 'exc' not in rec:
+                    ctx.count(f'override_node_{node}_degree_{kinds[pol[0]]}')
             fails, judged = oracle_crossing(view or c, x, rec, f"crossing #{j} {x['from']}->{x['deg']}")
             ctx.count('crossings_judged_by_oracle' if judged else 'crossings_config_broken_not_judged')
             for key, desc in fails:
@@ -895,7 +900,8 @@ def run(ctx):
         ctx.case(pub, mixed or obs['stage'] is not None)
         terms.append(term)
         meta.append((c, obs, ids))
-    lines = common.coq_eval('C06', 'Prelude Model.Roadm Run.C06', terms, per_file=max(8, len(terms) // 48 + 1))
+    lines = common.coq_eval('C06', 'Prelude Model.Roadm Run.C06', terms,
+                            per_file=max(12, len(terms) // ctx.scale(48, 160) + 1))
     for (c, obs, ids), line in zip(meta, lines):
         d = compare(c, obs, line, ids)
         if d:
